@@ -197,6 +197,11 @@ def families_for(want, tier):
         fams.append(SchedFamily(NestedSpace2(2), 'G', want, unroll=False))
         fams.append(SchedFamily(FlatSpace(2), 'Z', want, unroll=False))
         fams.append(SchedFamily(NestedSpace1(2), 'Z', want, unroll=True))
+        # blocks that are not executed at all (count 0, fixed or provided by a registry) next to registry-provided counts
+        zs = NestedSpace1(2, reps=(0, ('reg', 0), ('reg', 2)), bodies=N1_BODIES[:3])
+        zs.name = 'N1Z'
+        if 'C01' not in want:     # (the unrolling model of C01 describes counts >= 1)
+            fams.append(SchedFamily(zs, 'G', want, unroll=True))
         if 'C02' not in want:
             # blocks with a FOLLOWED_BY / JOINED_START relation of their own
             fams.append(SchedFamily(NestedSpace1(2, reps=(1, 2), bodies=N1_BODIES, block_rels=('FB', 'JS')), 'G', want, unroll=False))
